@@ -8,9 +8,10 @@
    when no handle to it exists.  From that it states
      - which image callbacks an operation must produce (exactly those, with the closed flag),
      - what Subscription::images() must show afterwards (closed images are in no list),
-     - that a kept clone reads closed exactly when its image has been reported unavailable,
      - that a log file is mapped while a handle to it exists and for at least the linger period after
        the last handle went away, and that nothing is mapped that was never handed out.
+   The closed flag read through a clone the application keeps is covered by the correspondence check and by
+   theorem C12_unavailable (closed identities = notified identities), not by this monitor.
    When a mapping is finally released ("unmapped afterwards") is not stated here: it is theorem
    C12_linger_release on the model plus the model/implementation correspondence of the `maps` observation.
 
@@ -20,14 +21,13 @@ Require Import V.Base.MachineInt V.Generated.GenConsts V.Model.CondTimers V.Mode
 Open Scope Z_scope.
 
 Record msub := mkMsub { ms_reg : Z; ms_live : bool; ms_imgs : list Z }.
-Record mclone := mkMclone { mc_reg : Z; mc_corr : Z; mc_closed : bool }.
 Record mkey := mkMkey { mk_key : Z; mk_file : Z; mk_gone : option Z }.
 Record mon := mkMon {
   mo_now : Z;                    (* last clock reading *)
   mo_closed : bool;              (* client closed *)
   mo_subs : list msub;           (* subscription handles held, in creation order *)
   mo_pubs : list (Z * Z);        (* publication handles held: (registration id, key) *)
-  mo_clones : list mclone;
+  mo_clones : list Z;            (* correlation ids of the image clones the application keeps *)
   mo_keys : list mkey            (* logs handed out so far *)
 }.
 Definition mon_init (t0 : Z) : mon := mkMon t0 false [] [] [] [].
@@ -42,15 +42,11 @@ Fixpoint remove1 (x : Z) (l : list Z) : list Z :=
 (* handles to the log with key k: announced images, kept clones (closed or not), publications *)
 Definition has_handle (mo : mon) (k : Z) : bool :=
   existsb (fun s => zmem k (ms_imgs s)) (mo_subs mo)
-  || existsb (fun c => mc_corr c =? k) (mo_clones mo)
+  || zmem k (mo_clones mo)
   || existsb (fun p => snd p =? k) (mo_pubs mo).
 
 Definition find_msub (reg : Z) (l : list msub) : option msub := find (fun s => ms_reg s =? reg) l.
 Definition set_msub (s' : msub) (l : list msub) : list msub := map (fun s => if ms_reg s =? ms_reg s' then s' else s) l.
-
-(* images of (reg, corrs) reported unavailable: kept clones of them read closed from now on *)
-Definition close_clones (reg : Z) (corrs : list Z) (l : list mclone) : list mclone :=
-  map (fun c => if (mc_reg c =? reg) && zmem (mc_corr c) corrs then mkMclone (mc_reg c) (mc_corr c) true else c) l.
 
 (* key -> file binding; None when the key is already bound to another file (outside the domain) *)
 Definition bind_key (k file : Z) (l : list mkey) : option (list mkey) :=
@@ -84,7 +80,6 @@ Fixpoint views_eqb (a b : list (Z * list (Z * Z))) : bool :=
 (* what images() of every held subscription must show: the announced, not yet withdrawn images, none of them closed *)
 Definition expect_views (mo : mon) : list (Z * list (Z * Z)) :=
   map (fun s => (ms_reg s, map (fun c => (c, 0)) (ms_imgs s))) (mo_subs mo).
-Definition expect_held (mo : mon) : list Z := map (fun c => b2z (mc_closed c)) (mo_clones mo).
 
 (* mapping: mapped while a handle exists and for at least `linger` after the last one went; nothing else is ever mapped *)
 Definition maps_ok (lg now : Z) (mo : mon) (maps : list Z) : bool :=
@@ -99,18 +94,9 @@ Inductive verdict := Bad | Outside | Next (mo : mon).
 Definition unavail_of (reg : Z) (corrs : list Z) : list (Z * Z * Z * Z) := map (fun c => (CB_UNAVAIL, reg, c, 1)) corrs.
 
 (* close of the whole client: every still registered subscription loses all its images *)
-Fixpoint close_all_subs (l : list msub) : list (Z * Z * Z * Z) * list msub :=
-  match l with
-  | [] => ([], [])
-  | s :: r => let '(cb, r') := close_all_subs r in
-              if ms_live s then (unavail_of (ms_reg s) (ms_imgs s) ++ cb, mkMsub (ms_reg s) false [] :: r')
-              else (cb, s :: r')
-  end.
-Fixpoint close_all_clones (l : list msub) (cl : list mclone) : list mclone :=
-  match l with
-  | [] => cl
-  | s :: r => close_all_clones r (if ms_live s then close_clones (ms_reg s) (ms_imgs s) cl else cl)
-  end.
+Definition close_cbs (l : list msub) : list (Z * Z * Z * Z) :=
+  flat_map (fun s => if ms_live s then unavail_of (ms_reg s) (ms_imgs s) else []) l.
+Definition close_msub (s : msub) : msub := if ms_live s then mkMsub (ms_reg s) false [] else s.
 
 (* the judgement of one operation: expected callbacks, then the monitor after the operation (before key refresh) *)
 Definition expect (mo : mon) (o : op) (r : outcome Z) : option (list (Z * Z * Z * Z) * mon) :=
@@ -150,7 +136,7 @@ Definition expect (mo : mon) (o : op) (r : outcome Z) : option (list (Z * Z * Z 
       | Some s => if ms_live s && zmem corr (ms_imgs s) then
                     Some ([(CB_UNAVAIL, reg, corr, 1)],
                           mkMon (mo_now mo) (mo_closed mo) (set_msub (mkMsub reg true (remove1 corr (ms_imgs s))) (mo_subs mo))
-                                (mo_pubs mo) (close_clones reg [corr] (mo_clones mo)) (mo_keys mo))
+                                (mo_pubs mo) (mo_clones mo) (mo_keys mo))
                   else keep
       | None => keep
       end
@@ -160,7 +146,7 @@ Definition expect (mo : mon) (o : op) (r : outcome Z) : option (list (Z * Z * Z 
       | Some s => let rest := filter (fun x => negb (ms_reg x =? reg)) (mo_subs mo) in
                   if ms_live s then
                     Some (unavail_of reg (ms_imgs s),
-                          mkMon (mo_now mo) (mo_closed mo) rest (mo_pubs mo) (close_clones reg (ms_imgs s) (mo_clones mo)) (mo_keys mo))
+                          mkMon (mo_now mo) (mo_closed mo) rest (mo_pubs mo) (mo_clones mo) (mo_keys mo))
                   else Some ([], mkMon (mo_now mo) (mo_closed mo) rest (mo_pubs mo) (mo_clones mo) (mo_keys mo))
       | None => keep
       end
@@ -170,7 +156,7 @@ Definition expect (mo : mon) (o : op) (r : outcome Z) : option (list (Z * Z * Z 
       match find_msub reg (mo_subs mo) with
       | Some s => match (if idx <? 0 then None else nth_error (ms_imgs s) (Z.to_nat idx)) with
                   | Some c => Some ([], mkMon (mo_now mo) (mo_closed mo) (mo_subs mo) (mo_pubs mo)
-                                              (mo_clones mo ++ [mkMclone reg c false]) (mo_keys mo))
+                                              (mo_clones mo ++ [c]) (mo_keys mo))
                   | None => keep
                   end
       | None => keep
@@ -180,8 +166,7 @@ Definition expect (mo : mon) (o : op) (r : outcome Z) : option (list (Z * Z * Z 
                 mkMon (mo_now mo) (mo_closed mo) (mo_subs mo) (mo_pubs mo) (remove_nth (Z.to_nat j) (mo_clones mo)) (mo_keys mo))
   | CloseClient now =>
       if mo_closed mo then keep else
-      let '(cb, subs') := close_all_subs (mo_subs mo) in
-      Some (cb, mkMon (mo_now mo) true subs' (mo_pubs mo) (close_all_clones (mo_subs mo) (mo_clones mo)) (mo_keys mo))
+      Some (close_cbs (mo_subs mo), mkMon (mo_now mo) true (map close_msub (mo_subs mo)) (mo_pubs mo) (mo_clones mo) (mo_keys mo))
   end.
 
 Definition op_now (mo : mon) (o : op) : Z :=
@@ -192,9 +177,12 @@ Definition op_now (mo : mon) (o : op) : Z :=
   end.
 
 (* the operation respects the domain in the monitor's current state *)
+Definition file_ok (o : op) : bool :=
+  match o with Avail _ _ _ f | Publish _ _ f => zmem f FILES | _ => true end.
+
 Definition op_in_domain (mo : mon) (o : op) (r : outcome Z) : bool :=
   let now := op_now mo o in
-  in_lim now && (mo_now mo <=? now) &&
+  in_lim now && (mo_now mo <=? now) && file_ok o &&
   match o with
   | Avail _ corr reg file =>
       match find_msub reg (mo_subs mo) with
@@ -222,8 +210,7 @@ Definition mon_step (lg : Z) (mo : mon) (o : op) (ob : obs) : verdict :=
           let now := op_now mo o in
           let mo2 := mkMon now (mo_closed mo1) (mo_subs mo1) (mo_pubs mo1) (mo_clones mo1) (mo_keys mo1) in
           let mo3 := mkMon now (mo_closed mo2) (mo_subs mo2) (mo_pubs mo2) (mo_clones mo2) (refresh_keys mo2 now) in
-          if cbs_eqb cbs ecbs && views_eqb views (expect_views mo3) && zlist_eqb held (expect_held mo3)
-             && maps_ok lg now mo3 maps
+          if cbs_eqb cbs ecbs && views_eqb views (expect_views mo3) && maps_ok lg now mo3 maps
           then Next mo3 else Bad
       end
   end.
